@@ -349,7 +349,11 @@ func (s *Script) react(i int, rctx sdk.Context) []Tx {
 // queries runs every registered palomachain.paloma.* gRPC query through the
 // ABCI Query surface with default requests plus a small menu of arguments, and
 // CheckTx of a transaction.
-func (s *Script) Queries(height int64, t time.Time) {
+func (s *Script) Queries(height int64, t time.Time) { s.QueriesAt(0) }
+
+// QueriesAt serves the whole read-only query menu once per given height (0 = latest committed
+// state, otherwise a historical version) and returns how many queries were answered without error.
+func (s *Script) QueriesAt(heights ...int64) (answered int) {
 	w := s.W
 	paths := queryMethods()
 	menu := map[string][]string{}
@@ -394,15 +398,21 @@ func (s *Script) Queries(height int64, t time.Time) {
 				continue
 			}
 			path := fmt.Sprintf("/%s/%s", md.Parent().FullName(), md.Name())
-			func() {
-				defer func() { _ = recover() }()
-				_, _ = w.App.Query(nil, &abci.RequestQuery{Path: path, Data: bz})
-			}()
+			for _, qh := range heights {
+				func() {
+					defer func() { _ = recover() }()
+					res, err := w.App.Query(nil, &abci.RequestQuery{Path: path, Data: bz, Height: qh})
+					if err == nil && res != nil && res.Code == 0 {
+						answered++
+					}
+				}()
+			}
 		}
 	}
 	// CheckTx / re-CheckTx of a harmless and of a failing transaction
 	rctx := w.App.NewUncachedContext(false, w.Root.BlockHeader())
 	_ = rctx
+	return answered
 }
 
 var cachedMethods []protoreflect.MethodDescriptor
